@@ -14,11 +14,11 @@ RULE = ('seeded generator: nanometre spectra with 2..40 samples on uniform and n
         'power preservation; histories of 1..12 editing operations (valid and invalid arguments) on one spectrum. '
         'distinct = distinct (grid hash, operation, arguments | operation sequence) descriptors; non-trivial = spectrum with '
         '> 2 samples.')
-ASSUMPTIONS = ['nanometre spectra (unit handling of bin/sample is C10/C13)',
+ASSUMPTIONS = ['unitless (valueunit None) spectra stored in m / um / nm / angstrom; editing histories in nm',
                'all-zero spectra under preserve_power (0/0) are not generated',
                "Simpson's rule is exercised only with uniformly spaced centres and data, as the property scopes it"]
 PLAN = {'quick': {'gen': 8}, 'thorough': {'gen': 16, 'tests': 1, 'docs': 1}}
-REQUIRED_BUCKETS = ['integrate:trapz', 'integrate:simps', 'bin:trapz', 'bin:simps', 'ends:symmetric', 'ends:inside',
+REQUIRED_BUCKETS = ['unit:m', 'unit:um', 'unit:nm', 'unit:angstrom', 'bin:unit-same', 'bin:unit-differs', 'integrate:trapz', 'integrate:simps', 'bin:trapz', 'bin:simps', 'ends:symmetric', 'ends:inside',
                     'preserve:True', 'preserve:False', 'grid:nonuniform', 'op:crop', 'op:trim', 'op:pad', 'op:append',
                     'op:resample', 'op:raised', 'history:len>=6']
 REQUIRED_ANCHORS = ['probe:Spectrum.crop', 'probe:Spectrum.trim', 'probe:Spectrum.pad', 'probe:Spectrum.append',
@@ -151,8 +151,11 @@ def workload(ctx, lentil):
         w = rgrid(rng, m, uni)
         v1, v2 = rng.uniform(0, 3, size=m), rng.normal(size=m)
         method = 'trapz' if rng.random() < 0.6 else 'simps'
-        desc = {'integrate': method, 'n': m, 'uniform': uni, 'w': probe.fp_array(w)[:8]}
-        ctx.case(desc, [f'integrate:{method}'] + ([] if uni else ['grid:nonuniform']), nontrivial=m > 2)
+        unit = sm.WAVE_CANON[int(rng.integers(0, 4))]
+        w = w * sm.wave_factor('nm', unit)          # the same grid stored in m / um / nm / angstrom
+        desc = {'integrate': method, 'n': m, 'uniform': uni, 'unit': unit, 'w': probe.fp_array(w)[:8]}
+        ctx.case(desc, [f'integrate:{method}', f'unit:{unit}'] + ([] if uni else ['grid:nonuniform']), nontrivial=m > 2)
+        mk = lambda ww, vv, _u=unit: S(ww, vv, waveunit=_u)
         a, b = float(rng.normal()), float(rng.normal())
         i0, i1 = sorted(rng.choice(m, 2, replace=False))
         at_samples = rng.random() < 0.6
@@ -163,9 +166,9 @@ def workload(ctx, lentil):
             ctx.skip('integrate: no sample inside the bounds')
             continue
         try:
-            I1 = S(w, v1).integrate(lo, hi, method)
-            I2 = S(w, v2).integrate(lo, hi, method)
-            I12 = S(w, a * v1 + b * v2).integrate(lo, hi, method)
+            I1 = mk(w, v1).integrate(lo, hi, method)
+            I2 = mk(w, v2).integrate(lo, hi, method)
+            I12 = mk(w, a * v1 + b * v2).integrate(lo, hi, method)
         except Exception as e:
             ctx.check(False, 'integrate:linear', f'integrate|raises={type(e).__name__}', str(e), desc)
             continue
@@ -183,7 +186,7 @@ def workload(ctx, lentil):
                           'trapezoid integration is not exact for piecewise-linear data', desc, scale=abs(ref) + 1e-300)
             # additive over adjacent intervals meeting at a sample point
             j0, jm, j1 = sorted(rng.choice(m, 3, replace=False))
-            sp = S(w, v1)
+            sp = mk(w, v1)
             whole = sp.integrate(w[j0], w[j1], 'trapz')
             parts = sp.integrate(w[j0], w[jm], 'trapz') + sp.integrate(w[jm], w[j1], 'trapz')
             ctx.close('integrate:additive', np.array([parts]), np.array([whole]), 1e-11, 'integrate|additive',
@@ -213,23 +216,34 @@ def workload(ctx, lentil):
             v = p[0] + p[1] * (w - w[0]) / span
         else:
             v = rng.uniform(0, 3, size=m)
+        # the spectrum is stored in unit u_s, the bin centres are given in unit u_c (waveunit=u_c); the reference below
+        # works entirely in u_c (a unitless spectrum keeps its values under a wavelength-unit conversion)
+        u_s = sm.WAVE_CANON[int(rng.integers(0, 4))]
+        u_c = u_s if rng.random() < 0.6 else sm.WAVE_CANON[int(rng.integers(0, 4))]
+        sp = S(w * sm.wave_factor('nm', u_s), v, waveunit=u_s)
+        w, c, span = w * sm.wave_factor('nm', u_c), c * sm.wave_factor('nm', u_c), span * sm.wave_factor('nm', u_c)
         desc = {'bin': method, 'ends': ends, 'preserve': preserve, 'n': m, 'nb': nb, 'linear': bool(linear),
-                'w': probe.fp_array(w)[:8], 'c': probe.fp_array(c)[:8]}
-        ctx.case(desc, [f'bin:{method}', f'ends:{ends}', f'preserve:{preserve}'] + ([] if uni_data else ['grid:nonuniform']))
-        sp = S(w, v)
+                'units': [u_s, u_c], 'w': probe.fp_array(w)[:8], 'c': probe.fp_array(c)[:8]}
+        ctx.case(desc, [f'bin:{method}', f'ends:{ends}', f'preserve:{preserve}', 'bin:unit-same' if u_s == u_c else 'bin:unit-differs']
+                 + ([] if uni_data else ['grid:nonuniform']))
+        fp_sp = probe.fingerprint(sp)
         if preserve:
             with probe.quiet():
-                tot = sp.integrate(np.min(c), np.max(c), method=method)
-            if not np.isfinite(tot) or abs(tot) < 1e-9:
+                tot = S(w, v, waveunit=u_c).integrate(np.min(c), np.max(c), method=method)
+            if not np.isfinite(tot) or abs(tot) < 1e-9 * sm.wave_factor('nm', u_c):
                 ctx.skip('bin: zero power inside the centres (0/0)')
                 continue
         try:
             with np.errstate(all='ignore'):
-                bins = sp.bin(c, interp_method=method, ends=ends, preserve_power=preserve)
+                if u_c == 'nm' and rng.random() < 0.5:
+                    bins = sp.bin(c, interp_method=method, ends=ends, preserve_power=preserve)
+                else:
+                    bins = sp.bin(c, interp_method=method, ends=ends, preserve_power=preserve, waveunit=u_c)
         except Exception as e:
             ctx.check(False, 'bin:count', f'bin|raises={type(e).__name__}', str(e), desc)
             continue
         bins = np.asarray(bins, float)
+        ctx.check(probe.fingerprint(sp) == fp_sp, 'bin:count', 'bin|spectrum-modified', 'bin modified the spectrum it was called on', desc)
         ctx.check(bins.shape == (nb,), 'bin:count', 'bin|count', 'bin does not return one value per requested centre',
                   dict(desc, got=list(bins.shape)))
         if bins.shape != (nb,):
